@@ -346,9 +346,15 @@ fn verbs_of(bytes: &[u8]) -> Vec<String> {
 
 /// Execute a model-driven trace. `prop` is the property under test.
 pub(crate) async fn exec_model_trace(t: Trace, prop: &'static str) -> Outcome {
+    let w = World::new(&t.config).await;
+    exec_model_trace_world(t, prop, w).await
+}
+
+/// As exec_model_trace, on a world the caller built (e.g. from a configuration file parsed by the server itself).
+pub(crate) async fn exec_model_trace_world(t: Trace, prop: &'static str, w: World) -> Outcome {
+    let mut w = w;
     let mut out = Outcome::new();
     let pbit = prop_bit(prop);
-    let mut w = World::new(&t.config).await;
     let mut m = Model::new(&t.config);
     let mut step = 0usize;
     let mut exps: Vec<TExp> = vec![];
